@@ -322,7 +322,7 @@ pub fn sensor_op(plan: &Plan, op: &Op) -> Option<Out> {
             Val::S([op.arg(1) as u32, op.arg(2) as u32, op.arg(3) as u32]),
         )),
         "N" => Some(Out::None),
-        "E" => Some(Out::Err(Er::Other(op.arg(0) as u8))),
+        "E" => Some(Out::Err(er_of(op.arg(0) as u8))),
         _ => None,
     }
 }
@@ -336,10 +336,10 @@ pub fn script_step(plan: &Plan, script: &mut Script, op: &Op) {
     match op.code.as_str() {
         "CS" => script.cond = Out::Some(op.arg(0), Val::B(op.arg(1) != 0)),
         "CN" => script.cond = Out::None,
-        "CE" => script.cond = Out::Err(Er::Other(op.arg(0) as u8)),
+        "CE" => script.cond = Out::Err(er_of(op.arg(0) as u8)),
         "FS" => script.fol = Out::Some(op.arg(0), Val::C(op.arg(1) as u8, op.arg(2) as u32)),
         "FN" => script.fol = Out::None,
-        "FE" => script.fol = Out::Err(Er::Other(op.arg(0) as u8)),
+        "FE" => script.fol = Out::Err(er_of(op.arg(0) as u8)),
         "FOLLOW" => script.following = true,
         "UNFOLLOW" => script.following = false,
         "SET" => set_cmd_in_force(script, op.arg(0) as u8, op.arg(1) as u32),
